@@ -58,6 +58,10 @@ class Run(object):
         self.tid_of = {}            # id(task object or sub generator) -> tid
         self.keep = []
         self.ntids = 0
+        self.last_ret = {}          # tid -> canonical value the hub last put into task.rv (consumed at the next resume)
+        self.queued_run = 0         # a task's generator was resumed while the task was (still) in the ready deque
+        self.draws = list(case.get("draws", ()))
+        self.conv = case.get("conv", 0)
 
     def now(self):
         u = self.clock.now * UNIT
@@ -111,19 +115,60 @@ class Run(object):
         if isinstance(v, int): return ["num", v]                                                # byte count / 0
         return ["other", repr(v)]
 
+    def fdset(self, l, rng):
+        """one descriptor set in one of the forms Select accepts: list, tuple, set, dict view, None"""
+        if l is None: return None
+        fds = [self.fd(i) for i in l]
+        if rng is None: return fds
+        forms = ["list", "tuple", "view"] + (["set"] if len(fds) <= 1 else []) + (["none"] if not fds else [])
+        f = rng.choice(forms)
+        if f == "tuple": return tuple(fds)
+        if f == "set": return set(fds)
+        if f == "view": return dict.fromkeys(fds).keys()
+        if f == "none": return None
+        return fds
+
     def build(self, y, tid):
         rc = self.rc; now = self.now(); tag = y[0]
         sec = lambda u: None if u is None else u / UNIT
-        if tag == "num": return (y[1] / UNIT if y[1] else 0), ([now + y[1], False] if y[1] else None)
+        rng = random.Random(self.conv * 1000003 + tid * 1009 + self.cur_idx) if self.conv else None
+        pick = (lambda n: rng.randrange(n)) if rng else (lambda n: 0)
+        if tag == "num":
+            if not y[1]: return (0 if pick(2) == 0 else 0.0), None
+            return y[1] / UNIT, [now + y[1], False]
         if tag == "block": return False, None
-        if tag == "sleep": return rc.Sleep(sec(y[1])), (None if y[1] is None else [now + y[1], False])
-        if tag == "sleepabs": return rc.Sleep(sec(y[1]), absoluteTime=True), [y[1], False]
+        if tag == "sleep":
+            if y[1] is None: return (rc.Sleep() if pick(2) == 0 else rc.Sleep(None)), None
+            d = sec(y[1]); c = pick(5)
+            op = (rc.Sleep(d) if c == 0 else rc.Sleep(timeToWake=d) if c == 1 else rc.Sleep(d, False) if c == 2 else
+                  rc.Sleep(self.clock.now + d, True) if c == 3 else rc.Sleep(timeToWake=self.clock.now + d, absoluteTime=True))
+            return op, [now + y[1], False]
+        if tag == "sleepabs":
+            w = sec(y[1]); c = pick(3)
+            return (rc.Sleep(w, True) if c == 0 else rc.Sleep(w, absoluteTime=True) if c == 1 else rc.Sleep(timeToWake=w, absoluteTime=True)), [y[1], False]
         if tag == "select":
             has = bool(y[1] or y[2] or y[3])
-            return rc.Select(self.fdl(y[1]), self.fdl(y[2]), self.fdl(y[3]), sec(y[4])), (None if y[4] is None else [now + y[4], has])
-        if tag == "recv": return rc.Recv(self.fd(y[1]), timeout=sec(y[2])), (None if y[2] is None else [now + y[2], True])
+            sets = [self.fdset(l, rng) for l in y[1:4]]
+            to = sec(y[4]); c = pick(6)
+            if to is None:
+                op = (rc.Select(*sets) if c % 3 == 0 else rc.Select(*(sets + [None])) if c % 3 == 1 else rc.Select(*sets, timeout=None))
+            elif c == 0: op = rc.Select(*(sets + [to]))
+            elif c == 1: op = rc.Select(*sets, timeout=to)
+            elif c == 2: op = rc.Select(*(sets + [to, False]))
+            elif c == 3: op = rc.Select(*(sets + [self.clock.now + to, True]))
+            elif c == 4: op = rc.Select(*sets, timeout=self.clock.now + to, timeIsAbsolute=True)
+            else: op = rc.Select(*(sets + [self.clock.now + to]), timeIsAbsolute=True)
+            return op, (None if y[4] is None else [now + y[4], has])
+        if tag == "recv":
+            to = sec(y[2]); c = pick(3)
+            op = (rc.Recv(self.fd(y[1]), timeout=to) if c == 0 else rc.Recv(self.fd(y[1]), 1024 * 8, rc.defaultRecvFlags, to) if c == 1
+                  else (rc.Recv(self.fd(y[1])) if to is None else rc.Recv(self.fd(y[1]), bufsize=512, timeout=to)))
+            return op, (None if y[2] is None else [now + y[2], True])
         if tag == "send":
-            return rc.Send(self.fd(y[1]), b"d" * y[2], timeout=sec(y[3]), block_size=y[4]), ("send", y[3])
+            to = sec(y[3]); c = pick(3); data = b"d" * y[2]
+            op = (rc.Send(self.fd(y[1]), data, timeout=to, block_size=y[4]) if c == 0 else rc.Send(self.fd(y[1]), data, to, y[4]) if c == 1
+                  else (rc.Send(self.fd(y[1]), data, block_size=y[4]) if to is None else rc.Send(self.fd(y[1]), data, to, block_size=y[4])))
+            return op, ("send", y[3])
         if tag == "exit": return rc.Exit(), None
         if tag == "again":
             tid2 = self.ntids; self.ntids += 1
@@ -144,7 +189,9 @@ class Run(object):
             self.cur_idx = i
             if isinstance(wake, tuple):                             # Send: its last registerSelect + timeout
                 wake = None if wake[1] is None else [self.last_reg[tid] + wake[1], True]
-            self.trace.append(["s", tid, i, self.now(), recv, wake])
+            if any(self.tid(x) == tid for x in self.sched._ready): self.queued_run += 1
+            raw = self.last_ret.pop(tid, recv if (recv is None or recv[0] != "exc") else None)
+            self.trace.append(["s", tid, i, self.now(), recv, wake, raw])
             try:
                 if uncaught is not None: raise uncaught
                 if i == len(prog): return
@@ -182,13 +229,23 @@ class Run(object):
             H.last_reg[H.tid(task)] = H.now()
             return real_register(task, *a, **kw)
         hub.registerSelect = register
+        real_return = hub._return
+        def _ret(task, val):                                        # notes what the hub puts into task.rv (the "raw" value of the next resume)
+            H.last_ret[H.tid(task)] = H.canon_recv("val", val)
+            return real_return(task, val)
+        hub._return = _ret
+        draws = self.draws
+        def scripted_random():                                      # Scheduler._random: the case's draw sequence, then 0
+            return draws.pop(0) / UNIT if draws else 0.0
+        sched._random = scripted_random
         class T(rc.BaseTask):
             def run(t, tid, prog): return H.body(tid, prog)
         tops = []
         for k in case["tasks"]:
             tid = self.ntids; self.ntids += 1
             t = T(tid, case["progs"][k]); self.tid_of[id(t)] = tid; tops.append(t)
-            t.start(scheduler=sched)
+            pr = case["prios"][tid] if tid < len(case.get("prios", ())) else None
+            t.start(scheduler=sched, priority=(None if pr is None else pr / UNIT))
         self.timers = []
         for (delay, recurring, selfstop, false_at) in case["timers"]:
             tid = self.ntids; self.ntids += 1
@@ -225,14 +282,14 @@ class Run(object):
         obs = {"trace": self.trace, "quit": bool(quit_) and run_exc is None, "crashed": run_exc is not None, "cycles": st["n"],
                "now": self.now(), "ready": [tid(t) for t in sched._ready], "incoming": [tid(e[0]) for e in list(hub._incoming.queue)],
                "hub": [tid(t) for t in hub._tasks], "subs": self.subs, "overlap": self.overlap, "run_exc": run_exc,
-               "descheduled": text.count("de-scheduled"), "excs": excs}
+               "descheduled": text.count("de-scheduled"), "excs": excs, "queued_run": self.queued_run}
         # release the pinger pipe now (its __del__ would otherwise close recycled descriptor numbers later)
         p = hub._pinger
         for a in ("_r", "_w"):
             try: os.close(getattr(p, a))
             except OSError: pass
             setattr(p, a, -1)
-        sched.cycle = None; hub._select_func = None; hub.registerSelect = None
+        sched.cycle = None; hub._select_func = None; hub.registerSelect = None; hub._return = None; sched._random = None
         return obs
 
 
@@ -313,13 +370,23 @@ class ThreadedRun(Run):
                 H.last_reg[H.tid(task)] = H.now()
                 return real_register(task, *a, **kw)
             hub.registerSelect = register
+            real_return = hub._return
+            def _ret(task, val):                                        # notes what the hub puts into task.rv (the "raw" value of the next resume)
+                H.last_ret[H.tid(task)] = H.canon_recv("val", val)
+                return real_return(task, val)
+            hub._return = _ret
+            draws = self.draws
+            def scripted_random():                                      # Scheduler._random: the case's draw sequence, then 0
+                return draws.pop(0) / UNIT if draws else 0.0
+            sched._random = scripted_random
             class T(rc.BaseTask):
                 def run(t, tid, prog): return H.body(tid, prog)
             tops = []
             for k in case["tasks"]:
                 tid = self.ntids; self.ntids += 1
                 t = T(tid, case["progs"][k]); self.tid_of[id(t)] = tid; tops.append(t)
-                t.start(scheduler=sched, fast=True)             # from the scheduler's point of view: scheduled before it starts
+                pr = case["prios"][tid] if tid < len(case.get("prios", ())) else None
+                t.start(scheduler=sched, fast=True, priority=(None if pr is None else pr / UNIT))   # scheduled before the scheduler starts
             self.timers = []
             for (delay, recurring, selfstop, false_at) in case["timers"]:
                 tid = self.ntids; self.ntids += 1
@@ -374,7 +441,8 @@ class ThreadedRun(Run):
                    "ready": [self.tid(t) for t in sched._ready], "incoming": [self.tid(e[0]) for e in hub._incoming.snapshot()],
                    "hub": [self.tid(t) for t in hub._tasks], "subs": self.subs, "overlap": self.overlap,
                    "run_exc": run_exc if run_exc else ("deadlock" if status == "deadlock" else None),
-                   "descheduled": text.count("de-scheduled"), "excs": excs, "status": status, "steps": ctl.steps}
+                   "descheduled": text.count("de-scheduled"), "excs": excs, "status": status, "steps": ctl.steps,
+                   "queued_run": self.queued_run}
             if status == "deadlock": obs["crashed"] = True
         finally:
             redir.close()
@@ -387,9 +455,12 @@ class ThreadedRun(Run):
 
 # --------------------------------------------------------------------------------------------------------------- cases
 
-def mk(progs, tasks, timers=(), r=(), w=(), x=(), send=(), recv=(), t0=T0, budget=400, label=""):
+def mk(progs, tasks, timers=(), r=(), w=(), x=(), send=(), recv=(), t0=T0, budget=400, label="", prios=(), draws=(), conv=0):
+    """prios[i]: priority of task i in 1/8 (missing = 8 = the default 1); draws: scripted Scheduler._random() results in 1/8
+    (exhausted = 0); conv: seed choosing, per yield, one of the calling conventions the blocking-operation classes accept
+    (0 = the plainest one) - semantically irrelevant, so the model does not see it"""
     return {"t0": t0, "budget": budget, "progs": progs, "tasks": tasks, "timers": timers, "r": r, "w": w, "x": x, "send": send,
-            "recv": recv, "label": label}
+            "recv": recv, "label": label, "prios": list(prios), "draws": list(draws), "conv": conv}
 
 NUM0, NUM4, BLOCK, SLEEP4, SLEEP0, EXIT = ["num", 0], ["num", 4], ["block"], ["sleep", 4], ["sleep", 0], ["exit"]
 SLEEPN = ["sleep", None]
@@ -442,7 +513,13 @@ def rand_case(rng, ntasks=None, maxlen=12):
     tab = lambda: [None if rng.random() < 0.35 else t0 + rng.choice([0, 2, 4, 6, 12, 20, 40]) for _ in range(nfds)]
     timers = [[rng.choice([0, 2, 5, 9, 18]), rng.random() < 0.6, rng.random() < 0.8, rng.choice([None, 0, 1, 2, 3, 3])] for _ in range(ntimers)]
     scr = lambda: [rng.choice([None, 0, 1, 2, 3, 8]) for _ in range(rng.choice([0, 0, 2, 5]))]
-    return mk(progs, list(range(ntop)), timers, tab(), tab(), tab(), scr(), scr(), t0, rng.choice([40, 400, 400]), "random")
+    c = mk(progs, list(range(ntop)), timers, tab(), tab(), tab(), scr(), scr(), t0, rng.choice([40, 400, 400]), "random")
+    if rng.random() < 0.3:                                        # the priority lottery: some or all tasks below priority 1
+        lo = rng.random() < 0.6
+        c["prios"] = [rng.choice([0, 1, 2, 4, 6, 7]) if (lo or rng.random() < 0.5) else rng.choice([8, 8, 12]) for _ in range(ntop)]
+        c["draws"] = [rng.choice([0, 1, 3, 5, 7, 8, 8, 8, 8]) for _ in range(rng.choice([0, 4, 12, 30]))]
+    c["conv"] = rng.randrange(1, 1 << 20) if rng.random() < 0.8 else 0
+    return c
 
 
 ALPHA = [NUM0, NUM4, SLEEP4, SLEEP0, SEL_T, SEL_R0, SEL_R1, BLOCK, SLEEPN, RAISE, EXIT, ["recv", 0, None], ["send", 2, 6, None, 4],
@@ -463,6 +540,19 @@ def scope(alpha, ntasks, maxlen, timers=ONE_TIMER, send=(4, 0), label="scope"):
         nb = len(used)
         progs = [[(["again", nb - 1 - y[1], y[2]] if y[0] == "again" and y[1] < 0 else y) for y in plist[i]] for i in used] + SUBS
         yield mk(progs, [used.index(i) for i in combo], timers, FD_R, FD_W, FD_X, send, [], T0, 120, label)
+
+
+LOTTERY = [([2, 2, 2], [8] * 7), ([4, 1, 6], [5, 5, 5, 3, 7, 0, 8, 8, 8, 2, 8, 8, 8]), ([2, 8, 2], [8, 8, 8, 8, 3]),
+           ([0, 0, 0], [1, 1, 1, 1, 1, 1, 0, 1, 1, 1]), ([7, 7, 3], [8, 8, 8, 8, 8, 8, 7, 8, 8, 8, 8])]
+
+
+def lottery_cases(alpha, ntasks, maxlen, label="lottery"):
+    """every program assignment of a small scope under several (priorities, draw sequence) pairs, including sweeps in which
+    every ready task loses its draw"""
+    for i, c in enumerate(scope(alpha, ntasks, maxlen, timers=[], label=label)):
+        for j, (pr, dr) in enumerate(LOTTERY):
+            d = dict(c); d["prios"] = pr[:ntasks]; d["draws"] = list(dr); d["conv"] = (i * 7 + j) % 5
+            yield d
 
 
 def hand_cases():
@@ -546,9 +636,12 @@ def thr_hand_cases():
     base += [c for c in hc if c["label"] in keep]
     base.append(mk(sub_table([[["sleep", 8], RAISE], [["sleep", 8], NUM0, NUM0], [["again", 4, True], ["sleep", 8]]]), [0, 1, 2, 1],
                    [[8, False, True, None], [4, True, True, 2]], label="thr: raise, sub-task, timers"))
+    base.append(mk([[SLEEP4, NUM0, ["sleep", 8]], [NUM0, ["sleep", 8], NUM0], [["sleep", 12]]], [0, 1, 2, 1], label="thr: lottery",
+                   prios=[2, 2, 4, 2], draws=[8, 8, 8, 8, 1, 8, 8, 8, 0, 8, 8, 8, 8, 3]))
     for c in base:
         for i in range(6):
-            yield threaded(c, sched_of(i))
+            d = threaded(c, sched_of(i)); d["conv"] = i
+            yield d
 
 
 def rand_thr_case(rng):
@@ -576,7 +669,10 @@ def rand_thr_case(rng):
     timers = [[rng.choice([4, 8, 5]), rng.random() < 0.5, True, rng.choice([0, 1, 2])] for _ in range(ntimers)]
     tab = lambda: [None if rng.random() < 0.4 else T0 + rng.choice([0, 4, 6, 12]) for _ in range(3)]
     c = mk(progs, list(range(ntop)), timers, tab(), tab(), [None, None, None], [rng.choice([2, 4, 1]) for _ in range(rng.choice([0, 3]))], [],
-           T0, 300, "thr-random")
+           T0, 300, "thr-random", conv=rng.randrange(1 << 20))
+    if rng.random() < 0.15:
+        c["prios"] = [rng.choice([1, 2, 4, 7]) for _ in range(ntop)]
+        c["draws"] = [rng.choice([0, 3, 8, 8, 8]) for _ in range(rng.choice([4, 12]))]
     return threaded(c, {"t": rng.choice(["seq", "random", "random", "pct"]), "seed": rng.randrange(1 << 30)})
 
 
@@ -584,6 +680,7 @@ def schedule_independent(case):
     """Program tables for which every per-task observation is the same under all schedules of the two threads, and equal to the
     inline hub's: no Exit (which tasks still run is a race), no timer.cancel() (races with the firing), no scripted sockets
     (one global script), and no descriptor that two waits could compete for (the later registration shadows the earlier)."""
+    if any(p < 8 for p in case.get("prios", ())): return False     # the draw sequence is consumed in an order that depends on the schedule
     uses = {}
     inst = {}
     for k in case["tasks"]: inst[k] = inst.get(k, 0) + 1
@@ -726,6 +823,13 @@ class C06(Check):
         cases += list(scope([a for a in ALPHA if a not in DROP], 3, 1, label="scope3x1"))     # 21^3 (all 26^3 in the thorough tier)
         for alpha in ([NUM0, SLEEP4], [SEL_R0, ["again", -1, True]]):
             cases += list(scope(alpha, 3, 3, label="scope3x3"))                  # 15^3 each
+        cases += list(lottery_cases([NUM0, SLEEP4], 3, 2))                       # 7^3 x 5
+        cases += list(lottery_cases([NUM0, ["again", -1, True], RAISE], 2, 2))   # 13^2 x 5
+        conv_progs = [[["select", [0], [2], [], 12], ["select", [], None, [], 4], ["select", [1], [], [0], 8], ["sleep", 4], ["num", 8],
+                       ["recv", 0, 8], ["send", 2, 6, 4, 4], ["sleepabs", T0 + 60], ["recv", 1, None], NUM0],
+                      [["select", [1, 0], [], [], 4], ["sleep", 0], ["send", 2, 3, None, 2], ["sleep", None]]]
+        for cv in range(1, 41):                                                  # the same programs under 40 choices of calling conventions
+            cases.append(mk(conv_progs, [0, 1, 0], [], FD_R, FD_W, FD_X, [2], [], T0, 200, "conventions", conv=cv))
         # threaded select hub (forced thread scheduler)
         cases += list(thr_hand_cases())
         for i, c in enumerate(scope(TH_A, 3, 1, timers=[], label="thr-scope3x1")):      # 7^3
@@ -782,7 +886,8 @@ class C06(Check):
         if case.get("kind") == "epoll": return None                 # plain differential test, no model counterpart
         if case.get("mode") == "threaded" and not schedule_independent(case):
             return None                                             # more than one legal outcome: the oracle alone judges
-        r = {k: v for k, v in case.items() if k not in ("label", "_iso", "mode", "sched")}
+        r = {k: v for k, v in case.items() if k not in ("label", "_iso", "mode", "sched", "conv")}
+        r.setdefault("prios", []); r.setdefault("draws", [])
         r.update(REPAIRED)
         return r
 
@@ -862,11 +967,17 @@ def oracle(chk, case, o):
     steps = {}
     for pos, e in enumerate(trace):
         if e[0] == "s": steps.setdefault(e[1], []).append((pos, e))
+    prios = case.get("prios", [])
+    def prio_of(tid):
+        while tid in tab and tab[tid][1] is not None: tid = tab[tid][1]          # a sub-task inherits its caller's priority
+        return prios[tid] if tid < min(len(prios), ntop) else 8
     # 0. the scheduler loop itself must survive whatever the tasks do
     if o["crashed"]:
         return "scheduler-died:%s | an exception escaped Scheduler.run()" % o["run_exc"]
     if o["overlap"]:
         return "overlap | a task step began while another was running"
+    if o.get("queued_run"):
+        return "run-while-queued | a task was executed while it was still in the ready deque"
     # 1. program order, each step once
     for tid, evs in steps.items():
         if tid not in tab: return "unknown-task | step of a task that was never created"
@@ -879,7 +990,7 @@ def oracle(chk, case, o):
     for e in trace:
         if e[0] == "s" and e[5] is not None:
             w, hasfds = e[5]
-            if (not hasfds or e[4] == TIMEOUT) and e[3] < w:
+            if (not hasfds or e[6] == TIMEOUT) and e[3] < w:        # e[6]: what the hub put into task.rv (also for Recv/Send)
                 return "early-wake | task %d step %d resumed at %d, wake time %d" % (e[1], e[2], e[3], w)
     # 3. only the task's own exceptions may deschedule it
     internal = [x for x in o["excs"] if x not in ("E", "RuntimeError", "StopIteration")]
@@ -909,12 +1020,13 @@ def oracle(chk, case, o):
         last_pos = steps[tid][-1][0]
         pe = [(p, e) for p, e in steps.get(ptid, []) if e[2] == pidx + 1]
         ended = o["quit"] or o["cycles"] >= case["budget"]
+        hi = prio_of(ptid) >= 8                   # a caller of priority < 1 goes through the lottery like everybody else
         if not pe:
-            if last_pos + 1 < len(trace) or not ended:
+            if (hi and last_pos + 1 < len(trace)) or not ended:
                 return "again:not-delivered | sub-task %d finished, caller %d was not resumed next" % (tid, ptid)
             continue
         p, e = pe[0]
-        if p != last_pos + 1:
+        if hi and p != last_pos + 1:
             return "again:not-next | caller %d did not run right after its sub-task %d finished" % (ptid, tid)
         want = None if out == "none" else out
         if e[4] != want:
@@ -979,7 +1091,7 @@ def oracle(chk, case, o):
     for tid, evs in steps.items():
         prog = tab[tid][0]
         for (p, e), (q, _) in zip(evs, evs[1:]):
-            if e[2] < len(prog) and prog[e[2]][0] in ("num",) and prog[e[2]][1] == 0 and tab[tid][1] is None:
+            if e[2] < len(prog) and prog[e[2]][0] in ("num",) and prog[e[2]][1] == 0 and tab[tid][1] is None and prio_of(tid) >= 8:
                 seen = {}
                 for x in trace[p + 1:q]:
                     if x[0] != "s": continue
